@@ -6,8 +6,13 @@ proofs : lean/PyAbel/Props/C09.lean (Daun degree 0 and the onion-peeling weights
          indices, the integrals of the hat functions / quadratic B-splines — Lemmas/AbelRamp.lean `abel_ramp`, `abel_qramp`, by the
          fundamental theorem of calculus); lean/PyAbel/Props/C09Rbasex.lean (every rBasex entry p_{R;n}(r), 1 ≤ r ≤ R, every
          angular order: the code's closed forms F[−1..3], its recursion for higher F[n] and the second difference of rFRF are
-         2∫ b_R(ρ)(r/ρ)ⁿ dz — Lemmas/AbelFrac.lean: reduction formula for ∫(r/ρ)ⁿ by the fundamental theorem of calculus)
-K      : Lean matrices (onionW, twoPointD, threePointD, daun0, daun1, daun2) vs the arrays the implementation builds;
+         2∫ b_R(ρ)(r/ρ)ⁿ dz — Lemmas/AbelFrac.lean: reduction formula for ∫(r/ρ)ⁿ by the fundamental theorem of calculus);
+         lean/PyAbel/Props/C09Daun3.lean (Daun degree 3: the coded antiderivative P(R,a,b,c,d) is the integral of the cubic piece,
+         p(j)[i] / q(j)[i] are for all i, j the integrals of the cubic Hermite value / derivative functions; the Thomas algorithm
+         solves the (1, 4, 1) system, the system is symmetric, hence the final matrix applied to any samples is, at every pixel,
+         the Abel integral of the clamped cubic spline through them — `daun3_eq_abel_spline`, every size n ≥ 2)
+K      : Lean matrices (onionW, twoPointD, threePointD, daun0, daun1, daun2, daun3 incl. the tridiagonal solve) vs the arrays
+         the implementation builds;
          the Lean model of _bs_rbasex (driver op rbxbasis) vs rbasex._bs_rbasex, whole matrices, orders 0..8, Rmax up to 150
          + through get_bs_cached after other requests (memory and disk): the arrays handed out are the generators' arrays
 S      : quadrature of the defining integral (scipy.integrate.quad on the smooth line-of-sight form
@@ -352,10 +357,11 @@ def run(tier):
                               "quadrature-backed only: daun 3, basex (series with ±9(u+2) cut-off), two/three-point (rows i ≥ 1; "
                               "the axis row uses the documented special cases and is compared with the model only)",
                               "scipy.integrate.quad (1e-12) and scipy CubicSpline for the degree-3 interpolant"]
-    ck.cov["unproved_clauses"] = ["daun degree 3, basex, two-point, three-point = their integrals (measured by quadrature)"]
+    ck.cov["unproved_clauses"] = ["basex, two-point, three-point = their integrals (measured by quadrature); daun degree 3: scipy.linalg.solve_banded is modelled by the Thomas algorithm (proved to solve the system; tied to the code by the entrywise comparison)"]
     ck.cov["source_fingerprint"] = source_fingerprint(["abel/basex.py", "abel/daun.py", "abel/rbasex.py", "abel/dasch.py"])
     ck.proofs("PyAbel.Props.C09")
     ck.proofs("PyAbel.Props.C09Rbasex")
+    ck.proofs("PyAbel.Props.C09Daun3")
     ok, log = ensure_driver()
     if ok:
         corr_operators(ck, tier)
